@@ -41,7 +41,7 @@ func c13Decorate(rt *rapid.T, label string, n ANameAddr, lrOptional bool) ANameA
 
 func TestC13(t *testing.T) {
 	V.Rule("lab: Route sets of 0-6 entries over 1-6 header lines (',' / ', ' / one per line, odd-case names, any position among the other headers) whose first entry is the listener by address:port, by alias with port, by alias without port (listener on 5060), a near miss (alias without port on a listener not on 5060, listener address with another port, listener port on a foreign host, a name resolving elsewhere, the alias of another listener of the same service with this listener's port) or a plain next hop; entries with token/quoted display names, sip/sips URIs with users, ports, lr in any position, valued and valueless URI parameters, transport=udp|tcp, 0-3 header parameters; keep-next-hop-route in every accepted spelling and via the environment default; UDP and TCP ingress on three listen entries; each route set is sent up to three times (same Route lines; new Call-ID and branch, or the same branch again with the same or another Call-ID). Oracle: reference model - consumed iff port (default 5060) equals the listener's port and host equals its address or resolves to it; hop = first remaining entry; relayed list = input - consumed - (hop unless keep), textually and in order; near misses consume nothing and are themselves the hop. non-trivial = >= 3 entries in >= 2 lines with an alias or near-miss first entry, or entries with header parameters; distinct by message")
-	V.Require("first:alias of another listener of the service, with this listener's port - near miss", "route set towards a tcp next hop that refuses connections, then accepts them", "first:alias without port (listener on 5060)", "first:alias without port (listener not on 5060) - near miss", "first:listener address, other port - near miss", "first:listener port on a foreign host - near miss", "first:name resolving to another address - near miss", "first:listener address:port", "first:alias:port", "first:alias written with capital letters, as configured", "keep:on", "keep:off", "same route set repeated", "same route set repeated with the same top Via branch", "own consumed", "entries with header parameters", ">=3 entries in >=2 lines")
+	V.Require("first:listener address with the port of the entry's other transport - near miss", "first:alias of another listener of the service, with this listener's port - near miss", "route set towards a tcp next hop that refuses connections, then accepts them", "first:alias without port (listener on 5060)", "first:alias without port (listener not on 5060) - near miss", "first:listener address, other port - near miss", "first:listener port on a foreign host - near miss", "first:name resolving to another address - near miss", "first:listener address:port", "first:alias:port", "first:alias written with capital letters, as configured", "keep:on", "keep:off", "same route set repeated", "same route set repeated with the same top Via branch", "own consumed", "entries with header parameters", ">=3 entries in >=2 lines")
 	variants := []stdVariant{{Keep: ""}, {Keep: "on"}, {Keep: "Y"}, {Keep: "0"}, {Keep: "", KeepEnv: "true"}, {Keep: "false", KeepEnv: "true"}}
 	var svcs []*stdSvc
 	for _, v := range variants {
@@ -153,7 +153,14 @@ func TestC13(t *testing.T) {
 			if rapid.Bool().Draw(rt, "byaddr") {
 				h = L.Addr
 			}
-			first(AURI{Scheme: "sip", Host: h, Port: 5099, Params: lr})
+			otherPort := 5099
+			if g.Entry == 1 && !g.TCP && rapid.Bool().Draw(rt, "the port is the one this listen entry uses for the other transport") {
+				// (the entry listens on 5062 for UDP and 5063 for TCP: over UDP, :5063 is
+				// not this listener)
+				otherPort = 5063
+				V.Class("first:listener address with the port of the entry's other transport - near miss")
+			}
+			first(AURI{Scheme: "sip", Host: h, Port: otherPort, Params: lr})
 		case 5:
 			first(AURI{Scheme: "sip", Host: s.ip(60), Port: L.Port, Params: lr})
 		case 6:
